@@ -96,6 +96,8 @@ pub struct GenCfg {
     pub avoid_start: bool,
     /// do not place the name section in front of the code section
     pub avoid_early_names: bool,
+    /// nothing refers to the last local function (C12 rebuilds it through the FunctionBuilder)
+    pub reserve_last: bool,
 }
 
 impl GenCfg {
@@ -112,6 +114,7 @@ impl GenCfg {
             avoid_exnref: false,
             avoid_start: false,
             avoid_early_names: false,
+            reserve_last: false,
         }
     }
 }
@@ -914,7 +917,9 @@ pub fn gen_module(t: &mut Tape, cfg: &GenCfg) -> GModule {
         func_tys.push(*t.pick(&func_type_idxs));
     }
     let n_fimp = m.n_func_imports();
-    let total_funcs = n_fimp + n_funcs;
+    let all_funcs = n_fimp + n_funcs;
+    // functions that may be referenced (the reserved last one is not)
+    let total_funcs = if cfg.reserve_last && n_funcs > 0 { all_funcs - 1 } else { all_funcs };
 
     for _ in 0..n_tables_local {
         let elem = if p.reftypes && t.chance(1, 4) { VT::Extern } else { VT::Func };
@@ -1108,7 +1113,7 @@ pub fn gen_module(t: &mut Tape, cfg: &GenCfg) -> GModule {
     }
 
     // ---------- function bodies ----------
-    let shape = Shape::from_module(&m, &func_tys, cfg, leaf_hi);
+    let shape = Shape::from_module(&m, &func_tys, cfg, leaf_hi, total_funcs);
     for (k, ty) in func_tys.iter().enumerate() {
         let uid = if edit { Some(marker_uid(k)) } else { None };
         let (locals, body) = gen_body(t, &shape, cfg, n_fimp + k, *ty, uid);
@@ -1137,7 +1142,7 @@ pub fn gen_module(t: &mut Tape, cfg: &GenCfg) -> GModule {
             }
         }
         for (k, ty) in func_tys.iter().enumerate() {
-            if m.types[*ty as usize] == GType::func(vec![], vec![]) {
+            if m.types[*ty as usize] == GType::func(vec![], vec![]) && n_fimp + k < total_funcs {
                 cands.push((n_fimp + k) as u32);
             }
         }
@@ -1181,7 +1186,7 @@ pub fn gen_module(t: &mut Tape, cfg: &GenCfg) -> GModule {
             n.module = Some("mod".into());
         }
         let subset = t.chance(1, 4);
-        for f in 0..total_funcs {
+        for f in 0..all_funcs {
             if !subset || t.bool() {
                 n.funcs.push((f as u32, format!("fn{}", f)));
             }
